@@ -65,7 +65,7 @@ Record state := mk {
   watchers : list watcher;              (* watcher i watches child (w_child) ; index in this list = its id *)
   mpcs : mpc;
   spawns : nat;                         (* ghost *)
-  triggers_done : nat;                  (* ghost: completed _restart_process calls that reached SSpawn *)
+  admitted : nat;                       (* ghost: _restart_process calls that found _is_trick_stopping unset (RCheck) *)
   max_alive : nat                       (* ghost: maximum number of children alive at a Spawn *)
 }.
 
@@ -115,21 +115,23 @@ Section Variant.
         if serial
         then match lock s with
              | None => Some (upd s (children s) (process s) (process_watcher s) (proc_stopping s) (trick_stopping s)
-                                 (Some t) (spawns s) (triggers_done s), RCheck)
+                                 (Some t) (spawns s) (admitted s), RCheck)
              | Some _ => None
              end
         else same RCheck
-    | RCheck => if trick_stopping s then same RUnlock else same PEnter
+    | RCheck => if trick_stopping s then same RUnlock
+                else Some (upd s (children s) (process s) (process_watcher s) (proc_stopping s) (trick_stopping s)
+                               (lock s) (spawns s) (S (admitted s)), PEnter)
     | PEnter =>
         if lock_free_for s t
         then if proc_stopping s then same SCheck     (* early return of _stop_process; caller goes on *)
              else Some (upd s (children s) (process s) (process_watcher s) true (trick_stopping s) (lock s)
-                            (spawns s) (triggers_done s), PWatcher)
+                            (spawns s) (admitted s), PWatcher)
         else None
     | PWatcher =>
         match process_watcher s with
         | Some w => Some (mk (clock s) (children s) (process s) None (proc_stopping s) (trick_stopping s) (lock s)
-                             (tpc s) (stop_watcher (watchers s) w) (mpcs s) (spawns s) (triggers_done s) (max_alive s),
+                             (tpc s) (stop_watcher (watchers s) w) (mpcs s) (spawns s) (admitted s) (max_alive s),
                           PSignal)
         | None => same PSignal
         end
@@ -142,43 +144,43 @@ Section Variant.
         if negb (child_alive s p) then same PClear
         else if N.leb kt (clock s)
              then Some (upd s (set_nth p false (children s)) (process s) (process_watcher s) (proc_stopping s)
-                            (trick_stopping s) (lock s) (spawns s) (triggers_done s), PClear)   (* SIGKILL *)
+                            (trick_stopping s) (lock s) (spawns s) (admitted s), PClear)   (* SIGKILL *)
              else None
     | PClear => Some (upd s (children s) None (process_watcher s) (proc_stopping s) (trick_stopping s) (lock s)
-                          (spawns s) (triggers_done s), PLeave)
+                          (spawns s) (admitted s), PLeave)
     | PLeave => Some (upd s (children s) (process s) (process_watcher s) false (trick_stopping s) (lock s)
-                          (spawns s) (triggers_done s), SCheck)
+                          (spawns s) (admitted s), SCheck)
     | SCheck => if trick_stopping s then same RUnlock else same SSpawn
     | SSpawn =>
         let c := length (children s) in
         Some (upd s (children s ++ [true]) (Some c) (process_watcher s) (proc_stopping s) (trick_stopping s) (lock s)
-                  (S (spawns s)) (S (triggers_done s)),
+                  (S (spawns s)) (admitted s),
               if restart_on_exit then SWatcher c else RUnlock)
     | SWatcher c =>
         let w := length (watchers s) in
         Some (mk (clock s) (children s) (process s) (Some w) (proc_stopping s) (trick_stopping s) (lock s)
-                 (tpc s) (watchers s ++ [mkw c WPoll false]) (mpcs s) (spawns s) (triggers_done s) (max_alive s),
+                 (tpc s) (watchers s ++ [mkw c WPoll false]) (mpcs s) (spawns s) (admitted s) (max_alive s),
               RUnlock)
     | RUnlock =>
         Some (upd s (children s) (process s) (process_watcher s) (proc_stopping s) (trick_stopping s)
                   (if serial then (if lock_free_for s t then None else lock s) else lock s)
-                  (spawns s) (triggers_done s), RDone)
+                  (spawns s) (admitted s), RDone)
     | RDone => None
     end.
 
   Definition set_tpc (s : state) (p : option rpc) : state :=
     mk (clock s) (children s) (process s) (process_watcher s) (proc_stopping s) (trick_stopping s) (lock s)
-       p (watchers s) (mpcs s) (spawns s) (triggers_done s) (max_alive s).
+       p (watchers s) (mpcs s) (spawns s) (admitted s) (max_alive s).
   Definition set_wpc (s : state) (i : nat) (p : wpc) : state :=
     match nth_error (watchers s) i with
     | Some w => mk (clock s) (children s) (process s) (process_watcher s) (proc_stopping s) (trick_stopping s) (lock s)
                    (tpc s) (set_nth i (mkw (w_child w) p (w_stopped w)) (watchers s)) (mpcs s) (spawns s)
-                   (triggers_done s) (max_alive s)
+                   (admitted s) (max_alive s)
     | None => s
     end.
   Definition set_mpc (s : state) (p : mpc) : state :=
     mk (clock s) (children s) (process s) (process_watcher s) (proc_stopping s) (trick_stopping s) (lock s)
-       (tpc s) (watchers s) p (spawns s) (triggers_done s) (max_alive s).
+       (tpc s) (watchers s) p (spawns s) (admitted s) (max_alive s).
 
   Definition rs_step (s : state) (l : label) : option state :=
     match l with
@@ -213,7 +215,7 @@ Section Variant.
             if lock_free_for s TM
             then if trick_stopping s then Some (set_mpc s MReturned)
                  else Some (set_mpc (upd s (children s) (process s) (process_watcher s) (proc_stopping s) true (lock s)
-                                         (spawns s) (triggers_done s)) MCapture)
+                                         (spawns s) (admitted s)) MCapture)
             else None
         | MCapture => Some (set_mpc s (MStop (process_watcher s) PEnter))
         | MStop w SCheck => Some (set_mpc s (MJoin w))        (* _stop_process returned *)
@@ -228,10 +230,10 @@ Section Variant.
         end
     | Exit i => if child_alive s i
                 then Some (upd s (set_nth i false (children s)) (process s) (process_watcher s) (proc_stopping s)
-                               (trick_stopping s) (lock s) (spawns s) (triggers_done s))
+                               (trick_stopping s) (lock s) (spawns s) (admitted s))
                 else None
     | Tick d => Some (mk (clock s + d) (children s) (process s) (process_watcher s) (proc_stopping s) (trick_stopping s)
-                         (lock s) (tpc s) (watchers s) (mpcs s) (spawns s) (triggers_done s) (max_alive s))
+                         (lock s) (tpc s) (watchers s) (mpcs s) (spawns s) (admitted s) (max_alive s))
     end.
 
   Definition restart_lts : lts := {| St := state; Lbl := label; init := init_state; step := rs_step |}.
@@ -245,3 +247,22 @@ Section Variant.
   Definition watcher_live (w : watcher) : bool :=
     match w_pc w with WDone => false | _ => negb (w_stopped w) end.
 End Variant.
+
+(* ---- views used by the statements about the repaired protocol ---- *)
+(* where thread t currently is inside _restart_process / _stop_process (None: not inside) *)
+Definition wr (w : watcher) : option rpc := match w_pc w with WRestart r => Some r | _ => None end.
+Definition rp (s : state) (t : tid) : option rpc :=
+  match t with
+  | TT => tpc s
+  | TW i => match nth_error (watchers s) i with Some w => wr w | None => None end
+  | TM => match mpcs s with MStop _ r => Some r | _ => None end
+  end.
+(* admitted (passed `if self._is_trick_stopping: return`) but not yet at/after Popen *)
+Definition prespawn (r : rpc) : bool :=
+  match r with PEnter | PWatcher | PSignal | PWait _ _ | PClear | PLeave | SCheck | SSpawn => true | _ => false end.
+(* the admitted _restart_process call, if any, of the thread holding the lock that has not reached Popen yet: 0 or 1 *)
+Definition pending (s : state) : nat :=
+  match lock s with
+  | Some t => match rp s t with Some r => if prespawn r then 1 else 0 | None => 0 end
+  | None => 0
+  end%nat.
